@@ -19,10 +19,56 @@ def _num(v, num):
     return kg.to_num(rat_json(q), num)
 
 
+class Convertible(object):
+    """a rate parameter that is no Expr but converts itself: `Reaction.rate_expr()` calls `param.as_RateExpr()`"""
+    def __init__(self, k):
+        self.k = k
+
+    def as_RateExpr(self):
+        from chempy.kinetics.rates import MassAction
+        return MassAction([self.k])
+
+
+def mk_pexpr(e, num):
+    """{'c': rat} | {'s': key} | {'add': [a, b]} | {'mul': [a, b]} -> chempy.util._expr objects"""
+    from chempy.util._expr import Constant, Symbol, _AddExpr, _MulExpr
+    if 'c' in e:
+        return Constant([_num(e['c'], num)])
+    if 's' in e:
+        return Symbol(unique_keys=(e['s'],))
+    if 'add' in e:
+        return _AddExpr([mk_pexpr(e['add'][0], num), mk_pexpr(e['add'][1], num)])
+    return _MulExpr([mk_pexpr(e['mul'][0], num), mk_pexpr(e['mul'][1], num)])
+
+
+def pexpr_syms(e):
+    """symbols of an expression, left to right (the order `_reg_unique` meets them)"""
+    if 'c' in e:
+        return []
+    if 's' in e:
+        return [e['s']]
+    a, b = e.get('add') or e.get('mul')
+    return pexpr_syms(a) + pexpr_syms(b)
+
+
+def pexpr_value(e, look):
+    if 'c' in e:
+        q = kg.frac(e['c'])
+        import sympy
+        return sympy.Rational(q.numerator, q.denominator)
+    if 's' in e:
+        return look(e['s'])
+    if 'add' in e:
+        return pexpr_value(e['add'][0], look) + pexpr_value(e['add'][1], look)
+    return pexpr_value(e['mul'][0], look) * pexpr_value(e['mul'][1], look)
+
+
 def mk_param(p, num):
     from chempy.kinetics.rates import MassAction
     from chempy.util._expr import Symbol
     kind = p['kind']
+    if kind == 'raw' and p.get('conv'):
+        return Convertible(_num(p['k'], num))          # an object with `as_RateExpr()` (like ArrheniusParam / EyringParam)
     if kind == 'raw':
         return _num(p['k'], num)
     if kind == 'ma':
@@ -117,9 +163,20 @@ def run_builder(c, rsys=None, builder=None, include_params=None, subs=None):
     if builder == 'get':
         ip = c['include_params'] if include_params is None else include_params
         sb = c['subs'] if subs is None else subs
-        return get_odesys(rsys, include_params=ip, cstr=bool(c['cstr']),
-                          substitutions=OrderedDict((k, _num(v, c['num'])) for k, v in sb) if sb else None)
+        items = [(k, _num(v, c['num'])) for k, v in sb] + [(k, mk_pexpr(e, c['num'])) for k, e in (c.get('active') or [])]
+        kw = {}
+        if c.get('consts'):
+            from types import SimpleNamespace
+            kw['constants'] = SimpleNamespace(**{k: _num(v, c['num']) for k, v in c['consts']})
+        return get_odesys(rsys, include_params=ip, cstr=bool(c['cstr']), substitutions=OrderedDict(items) if items else None, **kw)
     kw = {}
+    if c.get('subst_symbols') is not None:
+        import sympy
+        kw['substance_symbols'] = OrderedDict((k, sympy.Symbol(k)) for k in c['subst_symbols'])
+    if c.get('param_symbols') is not None:
+        import sympy
+        mk = OrderedDict if c['param_symbols']['ordered'] else dict
+        kw['parameter_symbols'] = mk((k, sympy.Symbol(k)) for k in c['param_symbols']['keys'])
     if c['cstr']:
         kw['rates_kw'] = {'cstr_fr_fc': cstr_pair(c)}
     if c['param_exprs']:
@@ -407,6 +464,8 @@ def live_param(p):
     from chempy.util._expr import Symbol
     if isinstance(p, str):
         return {'kind': 'key', 'uk': p}
+    if isinstance(p, Convertible):
+        return {'kind': 'raw', 'k': rat_json(kg.to_frac(p.k))}
     if isinstance(p, MassAction):
         (arg,) = p.args
         if isinstance(arg, Symbol):
@@ -429,7 +488,7 @@ def live_state(rsys):
 
 def same_state(pure, live):
     def norm(p):
-        q = dict(p)
+        q = {k: v for k, v in p.items() if k in ('kind', 'uk', 'k')}
         if 'k' in q:
             q['k'] = rat_json(kg.frac(q['k']))
         return q
@@ -799,7 +858,73 @@ class C04(Property):
         c['point'] = [[k, rat_json(Fraction(rng.randint(-3, 9), rng.choice([1, 1, 2, 3])))] for k in dict.fromkeys(syms)]
         c['alias'] = self._alias(rng, subst)
         self._share(rng, rxns)
+        for srx in rxns:                                     # a parameter object that converts itself (`as_RateExpr`)
+            if srx['param']['kind'] == 'raw' and rng.random() < 0.25:
+                srx['param'] = dict(srx['param'], conv=True)
+        if c['builder'] == 'get':
+            self._active_and_consts(rng, c)
+        elif rng.random() < 0.15:
+            self._user_symbols(rng, c)
         return c
+
+    def _active_and_consts(self, rng, c):
+        """Expr-valued (active) substitutions built from Constant / Symbol / + / *, and a `constants=` object"""
+        num, subst = c['num'], c['subst']
+        cs = (['feedratio'] + ['fc_' + s for s in subst]) if c['cstr'] else []
+        uks = list(dict.fromkeys(s['param']['uk'] for s in c['rxns'] if 'uk' in s['param']))
+        if rng.random() < 0.3 and (uks or cs):
+            targets = rng.sample(uks + cs[:2], min(len(uks + cs[:2]), rng.randint(1, 2)))
+            act, fresh = [], ['q1', 'q2', 'w']
+            for t in targets:
+                pool = [{'c': kg.rand_rat(rng, num)}]
+                if not c['include_params'] or rng.random() < 0.15:
+                    pool += [{'s': rng.choice(fresh)}] * 2
+                pool += [{'s': a[0]} for a in act]                                   # an earlier active key
+                if c['cstr']:
+                    pool.append({'s': rng.choice(cs)})
+                if subst and (c['include_params'] or rng.random() < 0.1):
+                    pool.append({'s': rng.choice(subst)})                            # a concentration-dependent "constant"
+                if uks and rng.random() < 0.3:
+                    pool.append({'s': rng.choice(uks)})
+                if rng.random() < 0.03:
+                    pool.append({'s': 'undefined_symbol'})
+
+                def expr(depth):
+                    if depth == 0 or rng.random() < 0.35:
+                        return rng.choice(pool)
+                    return {rng.choice(['add', 'mul']): [expr(depth - 1), expr(depth - 1)]}
+                act.append([t, expr(2)])
+            c['subs'] = [kv for kv in c['subs'] if kv[0] not in targets]
+            c['active'] = act
+            c['point'] = c['point'] + [[k, rat_json(Fraction(rng.randint(-3, 9), rng.choice([1, 2])))] for k in fresh]
+        if c['cstr'] and rng.random() < 0.3:
+            keys = rng.sample(cs, rng.randint(1, min(3, len(cs)))) + (['not_a_parameter'] if rng.random() < 0.3 else [])
+            c['consts'] = [[k, kg.rand_rat(rng, num)] for k in keys]
+
+    def _user_symbols(self, rng, c):
+        """_create_odesys with user-supplied substance_symbols / parameter_symbols (well-formed and malformed)"""
+        subst = c['subst']
+        cs = (['feedratio'] + ['fc_' + s for s in subst]) if c['cstr'] else []
+        pe = [k for k, _ in c['param_exprs']]
+        need = list(dict.fromkeys([s['param']['uk'] for s in c['rxns'] if 'uk' in s['param'] and
+                                   not (s['param']['kind'] == 'key' and s['param']['uk'] in pe)] + cs))
+        r = rng.random()
+        if r < 0.5:
+            ks = list(subst)
+            if rng.random() < 0.4 and len(ks) > 1:
+                rng.shuffle(ks)                                                      # wrong order (or by chance the right one)
+            elif rng.random() < 0.15:
+                ks = ks[:-1]
+            c['subst_symbols'] = ks
+        if r > 0.3:
+            keys = list(need)
+            m = rng.random()
+            if m < 0.2 and keys:
+                del keys[rng.randrange(len(keys))]                                   # a needed key is missing
+            elif m < 0.4:
+                keys.append('unused_parameter')
+            rng.shuffle(keys)
+            c['param_symbols'] = {'ordered': rng.random() < 0.8, 'keys': keys}
 
     def _alias(self, rng, subst):
         """a fraction of the substances is registered under a key that is not its Substance.name (names may even repeat or
